@@ -28,6 +28,10 @@ CHECKS = {
    text="Text part: for 13 scripts (Devanagari, Bengali, Tamil, Malayalam, Kannada, Sinhala, Myanmar, Khmer, Arabic, Syriac, Thai, Lao, Latin/default) an alphabet with one representative per class of the script's syllable machine plus foreigners (13-20 letters); ALL strings of length <= 4 (thorough <= 5, and <= 6 over the 10 core letters) x 2-4 fixture fonts x every shaping configuration with <= 1 (thorough 2) deviations from the default (feature selection Mask default/all/empty, Custom empty/list; language; kerning; direction; vertical; unmapped script tag) are mapped, shaped and positioned on real fonts; oracle: terminates without panic, every attachment index inside the run, every attributed character from the submitted run or U+25CC, glyph ids below numGlyphs, glyph_positions total. Fault part: one byte/u16 fault at every position of GSUB/GPOS/GDEF/kern/morx of the AOTS fonts (every 12th quick, all 206 thorough) and synthetic kern fonts, each mutant shaped with all strings of length <= 2 (thorough 3) over the glyphs the AOTS lookups act on, in isolated worker processes.",
    note="Trusted: the alphabets cover the syllable-machine classes (chosen from the Unicode/OpenType script specifications, listed in the evidence); fixture fonts; value faults from boundary menus; watchdog and allocation cap as in C01.",
    technique="exhaustive enumeration of strings x configurations (deviation bounded) on real fonts with a well-formedness oracle, plus exhaustive single-fault enumeration of layout tables"),
+ "C17": dict(engine="mcx-choice-tree", cat="model_checking",
+   text="For 23 script tags (all 20 tags the library maps plus three unmapped ones) an alphabet of 12-14 code points (bases, marks of several modified combining classes incl. equal classes and a non-BMP mark, joiners, and the script's rewrite triggers: Arabic shadda/modifier marks, SARA AM, Khmer split vowels, Indic split matras, Bengali ya+nukta, Kannada ra-halant-ZWJ, every prohibited vowel pair of five scripts); ALL strings of length <= 5 (thorough <= 7) go through preprocess_text (and, up to length 3/4, Font::map_glyphs) and are compared with relational oracles (content preserved, bases fixed, mark runs permuted within themselves) and exact independent models (stable sort by modified class; UTR #53 for Arabic; the documented splits/recompositions/insertions); Arabic mark runs of 17-24 marks with <= 3 deviations and all group patterns up to 40 (64) marks.",
+   note="Trusted: unicode-canonical-combining-class for base classes; modified-class table, UTR #53 steps and the rewrite tables re-derived from the specifications in the check; a documented rewrite that the library does not apply is recorded as an observation, not a violation; termination is not monitored.",
+   technique="exhaustive enumeration of strings per script against independent reference models of the documented rewrites"),
 }
 
 NOT_YET = {
